@@ -409,6 +409,106 @@ class _LogCall(__import__('ast').NodeTransformer):
     return n
 
 
+class _AugExpand(__import__('ast').NodeTransformer):
+  """x op= y  ->  x = x op y"""
+
+  def visit_AugAssign(self, n):
+    import ast, copy
+    self.generic_visit(n)
+    load = copy.deepcopy(n.target)
+    load.ctx = ast.Load()
+    return ast.copy_location(ast.Assign(
+        targets=[n.target],
+        value=ast.BinOp(left=load, op=n.op, right=n.value)), n)
+
+
+class _TfAlias(__import__('ast').NodeTransformer):
+  """tf.maximum -> tf.math.maximum ... (the same function objects)"""
+  NAMES = {'maximum', 'minimum', 'abs', 'reduce_sum', 'reduce_max',
+           'reduce_min', 'reduce_mean', 'sign', 'sqrt', 'exp', 'cumsum',
+           'equal', 'greater', 'less', 'logical_and', 'logical_or',
+           'logical_not', 'square', 'sigmoid', 'not_equal', 'greater_equal',
+           'less_equal', 'reduce_prod', 'reduce_all', 'reduce_any', 'floor',
+           'round', 'argmax', 'argmin', 'multiply', 'subtract', 'add',
+           'divide', 'tanh', 'pow'}
+
+  def visit_Attribute(self, n):
+    import ast
+    self.generic_visit(n)
+    if isinstance(n.value, ast.Name) and n.value.id == 'tf' and \
+        n.attr in self.NAMES:
+      return ast.copy_location(ast.Attribute(
+          value=ast.Attribute(value=n.value, attr='math', ctx=ast.Load()),
+          attr=n.attr, ctx=n.ctx), n)
+    return n
+
+
+def _ends_leaving(body):
+  import ast
+  return bool(body) and isinstance(body[-1], (ast.Return, ast.Raise))
+
+
+class _EarlyReturn(__import__('ast').NodeTransformer):
+  """if c: ...; return  else: B   ->   if c: ...; return   followed by B"""
+
+  def _fix(self, body):
+    import ast
+    out = []
+    for s in body:
+      if isinstance(s, ast.If) and s.orelse and _ends_leaving(s.body):
+        rest = s.orelse
+        s.orelse = []
+        out.append(s)
+        out.extend(rest)
+      else:
+        out.append(s)
+    return out
+
+  def generic_visit(self, n):
+    import ast
+    super().generic_visit(n)
+    for f in ('body', 'orelse', 'finalbody'):
+      b = getattr(n, f, None)
+      if isinstance(b, list) and b and isinstance(b[0], ast.stmt):
+        setattr(n, f, self._fix(b))
+    return n
+
+
+class _ElseAfterReturn(__import__('ast').NodeTransformer):
+  """if c: ...; return   followed by B   ->   if c: ...; return  else: B
+  (top level of every function)"""
+
+  def _fix(self, body):
+    import ast
+    for i, s in enumerate(body):
+      if isinstance(s, ast.If) and not s.orelse and s.body and isinstance(
+          s.body[-1], ast.Return) and body[i + 1:]:
+        s.orelse = self._fix(body[i + 1:])
+        return body[:i + 1]
+    return body
+
+  def visit_FunctionDef(self, n):
+    self.generic_visit(n)
+    n.body = self._fix(n.body)
+    return n
+
+
+class _IsinstSplit(__import__('ast').NodeTransformer):
+  """isinstance(x, (A, B)) -> isinstance(x, A) or isinstance(x, B)"""
+
+  def visit_Call(self, n):
+    import ast, copy
+    self.generic_visit(n)
+    if isinstance(n.func, ast.Name) and n.func.id == 'isinstance' and len(
+        n.args) == 2 and isinstance(n.args[1], ast.Tuple) and len(
+            n.args[1].elts) > 1:
+      return ast.copy_location(ast.BoolOp(op=ast.Or(), values=[
+          ast.Call(func=n.func, args=[copy.deepcopy(n.args[0]), e],
+                   keywords=[]) for e in n.args[1].elts]), n)
+    return n
+
+
+
 GLOBAL_NEUTRALS = [('ast.unparse round trip', None),
                    ('logging call at the top of every function, annotated '
                     'parameters', _LogCall),
@@ -416,7 +516,14 @@ GLOBAL_NEUTRALS = [('ast.unparse round trip', None),
                     _IfInvert),
                    ('keyword arguments reversed', _KwRev),
                    ('== / != operands swapped', _EqSwap),
-                   ('unused local at the top of every function', _Noop)]
+                   ('unused local at the top of every function', _Noop),
+                   ('x op= y expanded to x = x op y', _AugExpand),
+                   ('tf.X spelled tf.math.X', _TfAlias),
+                   ('else after return removed (early-return form)',
+                    _EarlyReturn),
+                   ('code after `if ...: return` moved into an else',
+                    _ElseAfterReturn),
+                   ('isinstance with a tuple split into an or', _IsinstSplit)]
 
 
 def run_roundtrip(repo, pid, transformer=None):
